@@ -49,10 +49,14 @@ func ChopFile(ctx context.Context, name string, chunks []IndexChunk, ws WriteSto
 	}
 
 	// Feed the workers, stop if there are any errors
+	var feedErr error
 loop:
 	for _, c := range chunks {
 		select {
 		case <-ctx.Done():
+			// Either a worker failed (its error is returned below) or the
+			// operation was cancelled before all chunks were handed out
+			feedErr = Interrupted{}
 			break loop
 		case in <- c:
 		}
@@ -60,7 +64,10 @@ loop:
 
 	close(in)
 
-	return g.Wait()
+	if err := g.Wait(); err != nil {
+		return err
+	}
+	return feedErr
 }
 
 // Helper function to read chunk contents from file
